@@ -26,8 +26,15 @@ def run(args, rep):
     c2 = [c for c in c2 if len(c['blk']) == 2]
     total = len(c1) + len(c2)
     rng.shuffle(c2)
-    cases = c1 + (c2[:24000] if args.tier == 'quick' else c2)
+    scoped = [c for c in c2 if any(st[0] in ('dbg_bind', 'assert_bind') for st in c['blk']) and any(st[0] in ('use_zq', 'nl_zq') for st in c['blk'])]
+    cases = c1 + (c2[:24000] + [c for c in scoped if c not in c2[:24000]] if args.tier == 'quick' else c2)
     jobs = [{'id': 's%d' % k, 'ctx': c['ctx'], 'env': c['env'], 'blk': c['blk'], 'opts': c['opts'], 'm': c['m']} for k, c in enumerate(cases)]
+    # every case in which the module uses the __doc__ name, once per spelling of that use (read, augmented assignment, assignment, read in a function, del)
+    for j in list(jobs):
+        if j['env'].get('usesDoc'):
+            for du in sorted(suitegen.DOC_USE):
+                if du != 'load':
+                    jobs.append(dict(j, id='%s+%s' % (j['id'], du), doc_use=du))
     obs = local.pmap(suitegen.observe, jobs, chunksize=64)
     rep.evaluations += len(obs)
     keep = {}
@@ -48,18 +55,26 @@ def run(args, rep):
         if v[0].startswith('machinery:'):
             raise MachineryError('%s on %s: %s' % (v[0], rid, keep[rid].get('msg')))
         o = keep[rid]
-        shape = '%s|%s|%s|%s' % (o['ctx'], ','.join(k for k, val in sorted(o['env'].items()) if val), ';'.join('.'.join(st) for st in o['blk']), ','.join(o['opts']))
+        shape = ('doc-%s|' % rid.split('+')[1] if '+' in rid else '') + '%s|%s|%s|%s' % (o['ctx'], ','.join(k for k, val in sorted(o['env'].items()) if val), ';'.join('.'.join(st) for st in o['blk']), ','.join(o['opts']))
         # a string statement that was not first in a module becomes its docstring once what preceded it is removed (known finding D20)
         promoted = (o['ctx'] == 'module_top' and o['blk'][0] != ['litstr'] and o['out_blk'][:1] == [['litstr']] and v[0].startswith('c05:behaviour'))
-        rep.violation(key=('D20:' if promoted else '') + shape + '|' + v[0], clause=v[0],
+        # a removed assert / `if __debug__:` block held the only binding of a name the function still looks up (known finding D27 = KF_D27 of SuiteS.tla)
+        kinds = [st[0] for st in o['blk']]
+        d27 = (o['ctx'] in ('function', 'function_if') and ('use_zq' in kinds or 'nl_zq' in kinds)
+               and (('remove_debug' in o['opts'] and 'dbg_bind' in kinds) or ('remove_asserts' in o['opts'] and 'assert_bind' in kinds))
+               and v[0] in ('c05:output-suite-not-among-the-documented-rewrites', 'c05:behaviour-under-O-differs', 'c05:minify-raised:raise:SyntaxError'))
+        rep.violation(key=('D20:' if promoted else 'D27:' if d27 else '') + shape + '|' + v[0], clause=v[0],
                       what='%s -> %s\n%s--- output:\n%s\nruns: O0 %s / %s ; O1 %s / %s' % (shape, o['out_blk'], o.get('_src'), o.get('_out'), o['run0_in'], o['run0_out'], o['run1_in'], o['run1_out']),
-                      replay={'kind': 'suite', 'check': 'C05', 'ctx': o['ctx'], 'env': o['env'], 'blk': o['blk'], 'opts': o['opts']})
+                      replay={'kind': 'suite', 'check': 'C05', 'ctx': o['ctx'], 'env': o['env'], 'blk': o['blk'], 'opts': o['opts'], 'doc_use': rid.split('+')[1] if '+' in rid else 'load'})
     for o in list(keep.values())[:1] + [x for x in keep.values() if x['out_blk'] != x['blk']][:2]:
         rep.sample({'context': o['ctx'], 'block': o['blk'], 'options': o['opts'], 'output_block': o['out_blk'], 'source': o.get('_src', '')[-300:]})
     rep.exhaustive = (args.tier != 'quick')
-    rep.rule = ('cases = (context, environment, block, options) exported by TLC from Suite.tla: every block of length 1 (2 504 cases) and length 2 (174 200 cases; '
-                'quick: seeded 24 000) over 37 statement symbols in 16 contexts, options = every subset of those relevant to the block with the rest all off / all on; '
-                'non-trivial = distinct cases whose output block differs from the input block')
+    nsym = len(set(tuple(st) for c in c1 for st in c['blk']))
+    nctx = len(set(c['ctx'] for c in c1))
+    rep.rule = ('cases = (context, environment, block, options) exported by TLC from Suite.tla: every block of length 1 (%d cases) and length 2 (%d cases; '
+                'quick: seeded 24 000 plus every case that pairs a name-binding assert / __debug__ block with a lookup of the name) over %d statement symbols in %d contexts, '
+                'options = every subset of those relevant to the block with the rest all off / all on; '
+                'non-trivial = distinct cases whose output block differs from the input block' % (len(c1), len(c2), nsym, nctx))
     rep.extra.update({'cases_enumerated_by_tlc': total, 'cases_replayed': len(cases), 'model_drift_cases': drift,
                       'checker_cmd': 'tlc Suite.tla (%s); tlc Trace_Suite.tla over ndjson observations' % cfg})
     rep.assumptions += ['statement-local classifier (harness/suitegen.py) maps output statements back to the alphabet; anything unrecognised is "unknown" and hence not allowed',
@@ -67,7 +82,7 @@ def run(args, rep):
 
 
 def replay(rp):
-    o = suitegen.observe({'id': 'replay', 'ctx': rp['ctx'], 'env': rp['env'], 'blk': rp['blk'], 'opts': rp['opts']})
+    o = suitegen.observe({'id': 'replay', 'ctx': rp['ctx'], 'env': rp['env'], 'blk': rp['blk'], 'opts': rp['opts'], 'doc_use': rp.get('doc_use', 'load')})
     print(o.get('_src'))
     print('--- output')
     print(o.get('_out'))
